@@ -8,6 +8,7 @@ From Coq Require Import ZArith Bool List Lia.
 From GoSecs Require Import Base.GoInt Base.BytesBE Base.GoSlice Gen.Gen2.
 From GoSecs Require Import Secs1.Block Gen.Bridge2Secs1.
 From GoSecs Require Secs2.Encode Gen.Bridge2Secs2.
+From GoSecs Require Hsms.Header Hsms.Frame Gen.Bridge2Frames.
 Import ListNotations.
 Open Scope Z_scope.
 
@@ -48,3 +49,181 @@ Theorem tie_secs2_appendHeaderBytesFC : forall dst fc n,
        else (dst ++ Secs2.Encode.header fc n, ErrNil)).
 Proof. exact Bridge2Secs2.bridge_appendHeaderBytesFC. Qed.
 Print Assumptions tie_secs2_appendHeaderBytesFC.
+
+(** * C03 / C06 (and the session models of C04/C05/C08) — hsms header packing and framing.
+    Statements are those of Gen/Bridge2Frames.v: [cm_of] / [dm_of] read a model message as a non-nil
+    Go pointer, [sbl] reads a System Bytes tuple as a [[4]byte]. *)
+Module TieHsms.
+Import Hsms.Header Hsms.Frame Gen.Bridge2Frames.
+
+Theorem tie_hsms_IsValidSType : forall b,
+  0 <= b < 256 -> Gen2.hsms.IsValidSType b = GOk (valid_stype b).
+Proof. exact bridge_IsValidSType. Qed.
+Print Assumptions tie_hsms_IsValidSType.
+
+Theorem tie_hsms_ToSystemBytes : forall id,
+  Gen2.hsms.ToSystemBytes id = GOk (sbl (to_system_bytes id)).
+Proof. exact bridge_ToSystemBytes. Qed.
+Print Assumptions tie_hsms_ToSystemBytes.
+
+Theorem tie_hsms_FromSystemBytes : forall sb,
+  Gen2.hsms.FromSystemBytes (sbl sb) = GOk (from_system_bytes sb).
+Proof. exact bridge_FromSystemBytes. Qed.
+Print Assumptions tie_hsms_FromSystemBytes.
+
+Theorem tie_hsms_ControlMessage_Type : forall c,
+  0 <= h5 (c_hdr c) < 256 ->
+  Gen2.hsms.ControlMessage_Type (cm_of c) = GOk (ctrl_type c).
+Proof. exact bridge_ControlMessage_Type. Qed.
+Print Assumptions tie_hsms_ControlMessage_Type.
+
+Theorem tie_hsms_ControlMessage_SessionID : forall c,
+  Gen2.hsms.ControlMessage_SessionID (cm_of c) = GOk (session_id (c_hdr c)).
+Proof. exact bridge_ControlMessage_SessionID. Qed.
+Print Assumptions tie_hsms_ControlMessage_SessionID.
+
+Theorem tie_hsms_ControlMessage_SystemBytes : forall c,
+  Gen2.hsms.ControlMessage_SystemBytes (cm_of c) = GOk (sbl (system_bytes (c_hdr c))).
+Proof. exact bridge_ControlMessage_SystemBytes. Qed.
+Print Assumptions tie_hsms_ControlMessage_SystemBytes.
+
+Theorem tie_hsms_ControlMessage_HeaderBytes : forall c,
+  Gen2.hsms.ControlMessage_HeaderBytes (cm_of c) = GOk (hdr_bytes (c_hdr c)).
+Proof. exact bridge_ControlMessage_HeaderBytes. Qed.
+Print Assumptions tie_hsms_ControlMessage_HeaderBytes.
+
+Theorem tie_hsms_ControlMessage_WaitBit : forall c,
+  Gen2.hsms.ControlMessage_WaitBit (cm_of c) = GOk (c_reply c).
+Proof. exact bridge_ControlMessage_WaitBit. Qed.
+Print Assumptions tie_hsms_ControlMessage_WaitBit.
+
+Theorem tie_hsms_ControlMessage_ID : forall c,
+  Gen2.hsms.ControlMessage_ID (cm_of c) = GOk (msg_id (c_hdr c)).
+Proof. exact bridge_ControlMessage_ID. Qed.
+Print Assumptions tie_hsms_ControlMessage_ID.
+
+Theorem tie_hsms_ControlMessage_ToBytes : forall c,
+  Gen2.hsms.ControlMessage_ToBytes (cm_of c) = GOk (ctrl_to_bytes c).
+Proof. exact bridge_ControlMessage_ToBytes. Qed.
+Print Assumptions tie_hsms_ControlMessage_ToBytes.
+
+Theorem tie_hsms_ControlMessage_WithSessionID : forall c id,
+  Gen2.hsms.ControlMessage_WithSessionID (cm_of c) id = GOk (cm_of (c_with_session_id c id)).
+Proof. exact bridge_ControlMessage_WithSessionID. Qed.
+Print Assumptions tie_hsms_ControlMessage_WithSessionID.
+
+Theorem tie_hsms_ControlMessage_WithSystemBytes : forall c sb,
+  Gen2.hsms.ControlMessage_WithSystemBytes (cm_of c) (sbl sb) = GOk (cm_of (c_with_system_bytes c sb)).
+Proof. exact bridge_ControlMessage_WithSystemBytes. Qed.
+Print Assumptions tie_hsms_ControlMessage_WithSystemBytes.
+
+Theorem tie_hsms_NewSelectReq : forall sid sb,
+  Gen2.hsms.NewSelectReq sid (sbl sb) = GOk (cm_of (new_select_req sid sb)).
+Proof. exact bridge_NewSelectReq. Qed.
+Print Assumptions tie_hsms_NewSelectReq.
+
+Theorem tie_hsms_NewDeselectReq : forall sid sb,
+  Gen2.hsms.NewDeselectReq sid (sbl sb) = GOk (cm_of (new_deselect_req sid sb)).
+Proof. exact bridge_NewDeselectReq. Qed.
+Print Assumptions tie_hsms_NewDeselectReq.
+
+Theorem tie_hsms_NewSeparateReq : forall sid sb,
+  Gen2.hsms.NewSeparateReq sid (sbl sb) = GOk (cm_of (new_separate_req sid sb)).
+Proof. exact bridge_NewSeparateReq. Qed.
+Print Assumptions tie_hsms_NewSeparateReq.
+
+Theorem tie_hsms_NewLinktestReq : forall sb,
+  Gen2.hsms.NewLinktestReq (sbl sb) = GOk (cm_of (new_linktest_req sb)).
+Proof. exact bridge_NewLinktestReq. Qed.
+Print Assumptions tie_hsms_NewLinktestReq.
+
+Theorem tie_hsms_NewRejectReqRaw : forall sid pt st sb reason,
+  Gen2.hsms.NewRejectReqRaw sid pt st (sbl sb) reason = GOk (cm_of (new_reject_req_raw sid pt st sb reason)).
+Proof. exact bridge_NewRejectReqRaw. Qed.
+Print Assumptions tie_hsms_NewRejectReqRaw.
+
+Theorem tie_hsms_NewSelectRsp : forall req status,
+  0 <= h5 (c_hdr req) < 256 ->
+  Gen2.hsms.NewSelectRsp (cm_of req) status =
+  GOk (rsp_result (new_select_rsp req status) "expected select.req message").
+Proof. exact bridge_NewSelectRsp. Qed.
+Print Assumptions tie_hsms_NewSelectRsp.
+
+Theorem tie_hsms_NewDeselectRsp : forall req status,
+  0 <= h5 (c_hdr req) < 256 ->
+  Gen2.hsms.NewDeselectRsp (cm_of req) status =
+  GOk (rsp_result (new_deselect_rsp req status) "expected deselect.req message").
+Proof. exact bridge_NewDeselectRsp. Qed.
+Print Assumptions tie_hsms_NewDeselectRsp.
+
+Theorem tie_hsms_NewLinktestRsp : forall req,
+  0 <= h5 (c_hdr req) < 256 ->
+  Gen2.hsms.NewLinktestRsp (cm_of req) =
+  GOk (rsp_result (new_linktest_rsp req) "expected linktest.req message").
+Proof. exact bridge_NewLinktestRsp. Qed.
+Print Assumptions tie_hsms_NewLinktestRsp.
+
+Theorem tie_hsms_DataMessage_SessionID : forall d dec,
+  Gen2.hsms.DataMessage_SessionID (dm_of d dec) = GOk (session_id (d_hdr d)).
+Proof. exact bridge_DataMessage_SessionID. Qed.
+Print Assumptions tie_hsms_DataMessage_SessionID.
+
+Theorem tie_hsms_DataMessage_SystemBytes : forall d dec,
+  Gen2.hsms.DataMessage_SystemBytes (dm_of d dec) = GOk (sbl (system_bytes (d_hdr d))).
+Proof. exact bridge_DataMessage_SystemBytes. Qed.
+Print Assumptions tie_hsms_DataMessage_SystemBytes.
+
+Theorem tie_hsms_DataMessage_HeaderBytes : forall d dec,
+  Gen2.hsms.DataMessage_HeaderBytes (dm_of d dec) = GOk (hdr_bytes (d_hdr d)).
+Proof. exact bridge_DataMessage_HeaderBytes. Qed.
+Print Assumptions tie_hsms_DataMessage_HeaderBytes.
+
+Theorem tie_hsms_DataMessage_Stream : forall d dec,
+  Gen2.hsms.DataMessage_Stream (dm_of d dec) = GOk (stream_of (d_hdr d)).
+Proof. exact bridge_DataMessage_Stream. Qed.
+Print Assumptions tie_hsms_DataMessage_Stream.
+
+Theorem tie_hsms_DataMessage_Function : forall d dec,
+  Gen2.hsms.DataMessage_Function (dm_of d dec) = GOk (function_of (d_hdr d)).
+Proof. exact bridge_DataMessage_Function. Qed.
+Print Assumptions tie_hsms_DataMessage_Function.
+
+Theorem tie_hsms_DataMessage_WaitBit : forall d dec,
+  Gen2.hsms.DataMessage_WaitBit (dm_of d dec) = GOk (wait_bit (d_hdr d)).
+Proof. exact bridge_DataMessage_WaitBit. Qed.
+Print Assumptions tie_hsms_DataMessage_WaitBit.
+
+Theorem tie_hsms_DataMessage_ID : forall d dec,
+  Gen2.hsms.DataMessage_ID (dm_of d dec) = GOk (msg_id (d_hdr d)).
+Proof. exact bridge_DataMessage_ID. Qed.
+Print Assumptions tie_hsms_DataMessage_ID.
+
+Theorem tie_hsms_DataMessage_ToBytes : forall d dec,
+  len (d_body d) < 2 ^ 62 ->
+  Gen2.hsms.DataMessage_ToBytes (dm_of d dec) = GOk (data_to_bytes d).
+Proof. exact bridge_DataMessage_ToBytes. Qed.
+Print Assumptions tie_hsms_DataMessage_ToBytes.
+
+Theorem tie_hsms_DataMessage_WithSessionID : forall d dec id,
+  Gen2.hsms.DataMessage_WithSessionID (dm_of d dec) id = GOk (dm_of (d_with_session_id d id) dec).
+Proof. exact bridge_DataMessage_WithSessionID. Qed.
+Print Assumptions tie_hsms_DataMessage_WithSessionID.
+
+Theorem tie_hsms_DataMessage_WithSystemBytes : forall d dec sb,
+  Gen2.hsms.DataMessage_WithSystemBytes (dm_of d dec) (sbl sb) = GOk (dm_of (d_with_system_bytes d sb) dec).
+Proof. exact bridge_DataMessage_WithSystemBytes. Qed.
+Print Assumptions tie_hsms_DataMessage_WithSystemBytes.
+
+Theorem tie_hsms_DataMessage_WithID : forall d dec id,
+  Gen2.hsms.DataMessage_WithID (dm_of d dec) id = GOk (dm_of (d_with_id d id) dec).
+Proof. exact bridge_DataMessage_WithID. Qed.
+Print Assumptions tie_hsms_DataMessage_WithID.
+
+Theorem tie_hsms_isSecondaryReply : forall d dec,
+  0 <= h3 (d_hdr d) < 256 ->
+  Gen2.hsms.isSecondaryReply (dm_of d dec) =
+  GOk (negb (wait_bit (d_hdr d)) && (function_of (d_hdr d) mod 2 =? 0)).
+Proof. exact bridge_isSecondaryReply. Qed.
+Print Assumptions tie_hsms_isSecondaryReply.
+
+End TieHsms.
